@@ -1,6 +1,7 @@
 package oned
 
 import (
+	"github.com/makiuchi-d/gozxing/verifhook"
 	"math"
 
 	"github.com/makiuchi-d/gozxing"
@@ -58,6 +59,7 @@ func NewCodaBarReader() gozxing.Reader {
 }
 
 func (this *codabarReader) DecodeRow(rowNumber int, row *gozxing.BitArray, hints map[gozxing.DecodeHintType]interface{}) (*gozxing.Result, error) {
+	verifhook.Touch("oned.scratch", this, true)
 
 	this.counters = this.counters[:0]
 	e := this.setCounters(row)
